@@ -508,7 +508,9 @@ def merge_rotations(circuit: Circuit):
     # TODO: could extend to other variational gates, standard or native to some devices (XX, etc)
     rot_gates = {"RX", "RY", "RZ", "CRX", "CRY", "CRZ", "PHASE", "CPHASE"}
 
-    for gi, gate in enumerate(circuit):
+    # Work on copies of the gates: merged parameters are accumulated in place below and
+    # the input circuit must be left unchanged.
+    for gi, gate in enumerate(copy.deepcopy(circuit._gates)):
         merge_gate = False
 
         # Identify qubits the current gate acts on.
